@@ -378,7 +378,9 @@ func init() {
 		projection: "Provide verdicts (duplicate versus accepted), provenance received under each key, missing verdicts for keys that must not be satisfiable",
 		kinds:      []string{"args.req", "args.opt", "snap.foreign"},
 		extra: func(k, d string) bool {
-			return (strings.HasPrefix(k, "verdict.provide") && contains(d, "dup", "want ok")) || (k == "verdict.invoke" && contains(d, "missing"))
+			// an empty group name would alias the key of the unnamed single value
+			emptyGroup := contains(d, `"grp":",`, `"group":",`)
+			return (strings.HasPrefix(k, "verdict.provide") && (contains(d, "dup", "want ok") || emptyGroup)) || (k == "verdict.invoke" && contains(d, "missing")) || (k == "crash" && emptyGroup)
 		},
 		run: genericRun(stagePlan{
 			covers: []coverPlan{
